@@ -13,6 +13,7 @@ import (
 	goat "github.com/avos-io/goat"
 	"github.com/avos-io/goat/gen/goatorepo"
 	"google.golang.org/grpc"
+	"google.golang.org/grpc/metadata"
 	"google.golang.org/protobuf/proto"
 	"google.golang.org/protobuf/types/known/wrapperspb"
 )
@@ -111,6 +112,12 @@ func c10Install(impl *Impl, w *c10World) {
 		case "send":
 			for i := 0; ; i++ {
 				if err := sendB(ss, srvMsg(i)); err != nil {
+					// a handler that pushes the rest of its batch without looking at the results, then a
+					// farewell header: every one of these fails at once, and leaves nothing behind
+					for k := 0; k < 12; k++ {
+						sendB(ss, srvMsg(i+1+k))
+					}
+					ss.SendHeader(metadata.Pairs("farewell", "1"))
 					return err
 				}
 			}
